@@ -290,6 +290,17 @@ Theorem hemi_volume_is_sum : forall r c rad, (2 <= r)%N -> (1 <= c)%N ->
 Proof. exact HemiVolume.hemi_volume_is_sum. Qed.
 Print Assumptions hemi_volume_is_sum.
 
+(* … and as the stack on the base plane: rows-2 frusta between consecutive rings plus the apex pyramid *)
+Theorem hemi_volume_frusta : forall r c rad, (2 <= r)%N -> (1 <= c)%N ->
+  rvol6 (hemi_trisR r c rad) / 6 =
+    rsum (fun j => (rad * cos (alpha r (j + 1)) - rad * cos (alpha r j)) / 3 * (NR c / 2 * sin (2 * PI / NR c)) *
+                   ((rad * sin (alpha r j)) * (rad * sin (alpha r j)) + (rad * sin (alpha r (j + 1))) * (rad * sin (alpha r (j + 1)))
+                    + (rad * sin (alpha r j)) * (rad * sin (alpha r (j + 1))))) (nseq (r - 2))
+    + (rad - rad * cos (alpha r (r - 2))) / 3 * (NR c / 2 * sin (2 * PI / NR c))
+      * ((rad * sin (alpha r (r - 2))) * (rad * sin (alpha r (r - 2)))).
+Proof. exact HemiVolume.hemi_volume_frusta. Qed.
+Print Assumptions hemi_volume_frusta.
+
 Theorem hemi_volume_pos : forall r c rad, (2 <= r)%N -> (3 <= c)%N -> 0 < rad -> 0 < rvol6 (hemi_trisR r c rad) / 6.
 Proof. exact HemiVolume.hemi_volume_pos. Qed.
 Print Assumptions hemi_volume_pos.
